@@ -1124,16 +1124,17 @@ Section Naming.
 
   (* distinct GraphQL variable names + mangled names that are identifiers (+ sane serialize function names):
      the assigned parameters are valid, pairwise distinct, never reserved *)
-  Lemma naming_wf vs :
-    NoDup (map v_name vs) -> names_ok S snake vs = true -> names_wf S (naming S snake vs) vs = true.
+  Lemma naming_wf extra vs :
+    NoDup (map v_name vs) -> names_ok S snake vs = true -> names_wf S (naming S snake extra vs) vs = true.
   Proof.
     intros Hnd Hok. unfold names_ok in Hok. apply andb_true_iff in Hok as [Hid Hser].
-    unfold names_wf. rewrite (naming_names S snake vs Hnd).
+    unfold names_wf. rewrite (naming_names S snake extra vs Hnd).
     set (bases := map (base_name snake) (map v_name vs)).
-    destruct (assign_free bases (reserved_names S)) as [Hnodup Hfree].
-    pose proof (assign_form bases (reserved_names S)) as Hform.
-    assert (Hres : forall r, In r (reserved_names S) -> mem_str r (assign (reserved_names S) bases) = false).
-    { intros r Hr. apply mem_str_false. intro Hin. apply (Hfree r Hin Hr). }
+    set (used := (reserved_names S ++ extra)%list).
+    destruct (assign_free bases used) as [Hnodup Hfree].
+    pose proof (assign_form bases used) as Hform.
+    assert (Hres : forall r, In r (reserved_names S) -> mem_str r (assign used bases) = false).
+    { intros r Hr. apply mem_str_false. intro Hin. apply (Hfree r Hin). apply in_or_app. left; exact Hr. }
     assert (Hbases : Forall (fun b => ident_ok b = true) bases).
     { unfold bases. rewrite map_map. apply Forall_forall. intros b Hb. apply in_map_iff in Hb as [v [E Hv]].
       subst b. rewrite forallb_forall in Hid. apply Hid; exact Hv. }
@@ -1145,7 +1146,8 @@ Section Naming.
         subst q. destruct Hbq as [k Hk]. rewrite Hk. apply ident_ok_usk. assumption. }
       unfold ident_ok in Hident. apply andb_true_iff in Hident as [H1 H2].
       unfold py_ok_name. rewrite H1, H2. simpl.
-      assert (Hs : ~ In p (reserved_names S)) by (apply Hfree; exact Hp).
+      assert (Hs : ~ In p (reserved_names S)).
+      { intro Hr. apply (Hfree p Hp). apply in_or_app. left; exact Hr. }
       destruct (String.eqb p "self") eqn:E1; [apply String.eqb_eq in E1; subst; exfalso; apply Hs; left; reflexivity|].
       destruct (String.eqb p "kwargs") eqn:E2; [apply String.eqb_eq in E2; subst; exfalso; apply Hs; right; left; reflexivity|].
       reflexivity.
